@@ -168,6 +168,8 @@ def undictify_element(element_dict: dict[str, Any], circuit_dict: dict[str, Any]
     kwargs.update({'reverse': element_dict.get('reverse', False)})
     if element_dict['name'] in circuit_dict.keys():
         kwargs.update(circuit_dict[element_dict['name']])
+        if 'phi' in circuit_dict[element_dict['name']]:
+            kwargs.update({'deg': False, 'sin': False})
     try:
         element = simple_circuit_element_types[element_dict['type']](**kwargs)
     except KeyError:
